@@ -37,9 +37,9 @@ theorem natStr_head (b : Nat) (hb : 2 ≤ b) (hb16 : b ≤ 16) (u : Bool) (n : N
 
 /-! ### the reference -/
 
-def cBase (c : Char) : Nat := if c = 'x' ∨ c = 'X' then 16 else if c = 'o' then 8 else 10
+def cBase (c : Char) : Nat := if c = 'x' ∨ c = 'X' then 16 else if c = 'o' then 8 else if c = 'b' ∨ c = 'B' then 2 else 10
 
-/-- The printf reference for `d x X o`, written from C99 7.19.6.1 with one convention: all four conversions are
+/-- The printf reference for `d x X o` (and `b B`, C23), written from C99 7.19.6.1 with one convention: all four conversions are
     signed (sign and magnitude, as Ruby/Puppet print with an explicit sign).  The directive is given as the record
     of its flags, width, precision and letter. -/
 def cRef (g : GoSpec) (i : Int) : Str :=
@@ -50,8 +50,8 @@ def cRef (g : GoSpec) (i : Int) : Str :=
   let digits := match g.prec with
     | some p => zeros (p - digits.length) ++ digits
     | none => digits
-  -- "#: for x (or X) conversion, a nonzero result has 0x (or 0X) prefixed to it"
-  let pfx : Str := if g.sharp ∧ (g.verb = 'x' ∨ g.verb = 'X') ∧ mag ≠ 0 then ['0', g.verb] else []
+  -- "#: for x (or X) conversion, a nonzero result has 0x (or 0X) prefixed to it" (likewise 0b, 0B: C23)
+  let pfx : Str := if g.sharp ∧ (g.verb = 'x' ∨ g.verb = 'X' ∨ g.verb = 'b' ∨ g.verb = 'B') ∧ mag ≠ 0 then ['0', g.verb] else []
   -- "#: for o conversion, it increases the precision, if and only if necessary, to force the first digit of the
   --  result to be a zero (if the value and precision are both 0, a single 0 is printed)"
   let digits := if g.sharp ∧ g.verb = 'o' ∧ digits.head? ≠ some '0' then '0' :: digits else digits
@@ -104,7 +104,7 @@ def cAbs (g : GoSpec) (neg nz : Bool) (digits : Str) : Str :=
   let digits := match g.prec with
     | some p => zeros (p - digits.length) ++ digits
     | none => digits
-  let pfx : Str := if g.sharp ∧ (g.verb = 'x' ∨ g.verb = 'X') ∧ nz then ['0', g.verb] else []
+  let pfx : Str := if g.sharp ∧ (g.verb = 'x' ∨ g.verb = 'X' ∨ g.verb = 'b' ∨ g.verb = 'B') ∧ nz then ['0', g.verb] else []
   let digits := if g.sharp ∧ g.verb = 'o' ∧ digits.head? ≠ some '0' then '0' :: digits else digits
   let sign := signStr neg g.plus g.space
   let n := sign.length + pfx.length + digits.length
